@@ -55,16 +55,16 @@ META.update({
         note="States whose singular values lie within a factor 2 (plus the rounding floor of the scalar type) of the threshold are classified Ambiguous and only counted. alpha, Y, w are finite alphabets.", ref="DESIGN.md §5 C01"),
     "C02": dict(technique=E1 + "; invariant = residuals == column-major W(Y - Phi C) for the reported C, weighted_data == W*Y, params() == last applied alpha",
         text="Identity between reported quantities in every reached state, including rank-deficient states (where a projector-based shortcut differs), weights with w^2 != w, negative and zero weights, multiple right-hand sides.",
-        note="best_fit and optimizer-driven histories are decided by the fit engines (C04/C05 checks) once registered.", ref="DESIGN.md §5 C02"),
+        note="best_fit (shape, value, zero/negative weights) and optimizer-driven histories (replay of the optimizer's recorded parameter sequence by hand must give the same final state) are decided on the fit grid (fitgrid engine).", ref="DESIGN.md §5 C02"),
     "C03": dict(technique=E1 + "; invariant = reference Kaufman Jacobian, range orthogonality, finite-difference gradient; plus fault injection at every derivative call (all-or-nothing)",
         text="In every full-rank reached state jacobian() is compared column by column and block by block with -(I-P)W D_k C built from an independent reference, every block must be orthogonal to range(W Phi), and 2 J^T r must match central differences of fresh problems; the faults engine shows that a failing derivative at any index yields None.",
         note="Full-rank = all singular values surely above the threshold; K eps kappa <= 1e-2.", ref="DESIGN.md §5 C03"),
     "C06": dict(technique=E1 + " on lock-step twins: weighted problem || row-scaled unweighted problem (and unit-weights || no weights, zero weight || row deleted, negative weight || |w|)",
         text="Twins are stepped through the same histories; coefficients, residuals and Jacobian must agree in every state (bitwise for unit weights; tolerance otherwise, bitwise in practice and counted).",
-        note="Whole fits and statistics of twins are compared by the fit engine once registered.", ref="DESIGN.md §5 C06"),
+        note="Whole fits and fit_with_statistics of the twins are compared on the fit grid (termination, parameters, coefficients, residuals, reduced chi2, covariance within K eps kappa).", ref="DESIGN.md §5 C06"),
     "C07": dict(technique=E1 + " on lock-step 1+S problems: the mrhs problem and the S single-rhs problems of its columns, over all ordered column selections from a 6-column pool (S<=3, plus S=4,5)",
         text="Column s of the coefficient matrix and block s of residuals and of every Jacobian column must equal the single-rhs problem's in every reached state; includes duplicated, dependent and zero columns, S > M, weights, both flavours.",
-        note="Fitted-alpha invariance under column permutation is decided by the fit engine once registered.", ref="DESIGN.md §5 C07"),
+        note="Invariance of the fitted parameters under every column permutation (and the matching permutation of coefficient columns) is decided on the fit grid.", ref="DESIGN.md §5 C07"),
     "C10": dict(technique=E1 + "; invariant = the map alpha -> observable state is single-valued over all histories and equals a freshly built problem bitwise; queries are self-loops; failed updates leave nothing exposed",
         text="Every state is approached through every history up to depth 3 (quick) / 4 (thorough) over alphabets that include rank-deficient, extreme and model-rejected parameter vectors.",
         note="Uninitialised memory: the binary's global allocator poisons fresh and freed memory; every first-visited state is re-observed under four poison bytes and against a fresh problem. Thorough tier adds one free-running execution under miri (uninitialised reads and data races are UB reports) - an interpreter of one execution, used as an additional oracle only.", ref="DESIGN.md §5 C10, §12.1"),
